@@ -5,10 +5,12 @@
 EXTENDS ObsBase
 VARIABLES l, nbad
 InOrder(o, n) == o = [k \in 1..n |-> k - 1]
+(* `variants` with the reference as record 1 of the alignment: the output skips pipeline index 1 *)
+ExpOrder(v) == IF v.cmd = "variantsref" /\ v.N > 1 THEN [k \in 1..v.N |-> IF k = 1 THEN 0 ELSE k] ELSE [k \in 1..v.N |-> k - 1]
 FailedPipe(o) ==
   LET v == o.vec  b == o.obs IN
   IF b.iserr THEN {"unexpected-error"} ELSE
-    (IF InOrder(b.order, v.N) THEN {} ELSE {"input-order"})
+    (IF b.order = ExpOrder(v) THEN {} ELSE {"input-order"})
     \cup (IF b.header_ok /\ b.records_same /\ b.bytes_equal THEN {} ELSE {"bytes-differ"})
 FailedCli(o) ==
   LET v == o.vec  b == o.obs  r == b.runs IN
